@@ -332,4 +332,183 @@ theorem frameLoop_exec_all (d : Dfsr) (st : Store) (tell : Nat) (bs : List Nat) 
           exact hex
         · rw [hfs]; simp [setRows, r1]; ring_nf
 
+
+/-! ### one record: slice from the offsets, events, execution -/
+
+/-- arithmetic progression `a, a+step, …` of `len` members -/
+def ap (a step len : Nat) : List Nat := (List.range len).map (fun i => a + i * step)
+
+theorem rangeList_eq_ap (a b c : Nat) : rangeList a b c = ap a c (rangeLen a b c) := rfl
+
+theorem ap_getLast (a step len : Nat) : (ap a step (len + 1)).getLast? = some (a + len * step) := by
+  unfold ap; rw [List.range_succ]; simp
+
+theorem rangeLen_ap (a step len : Nat) (hs : 0 < step) : rangeLen a (a + len * step + 1) step = len + 1 := by
+  unfold rangeLen
+  have : a < a + len * step + 1 := by omega
+  simp only [this, if_true]
+  have : a + len * step + 1 - a - 1 = len * step := by omega
+  rw [this, Nat.mul_div_cancel _ hs]
+
+/-- `_sliceFromList` of an arithmetic progression gives back a slice that enumerates it -/
+theorem sliceFromList_ap (a step len : Nat) (hs : 0 < step) :
+    ∃ c, 0 < c ∧ sliceFromList (ap a step (len + 1)) = .ok (a, a + len * step + 1, c) ∧
+      rangeList a (a + len * step + 1) c = ap a step (len + 1) ∧ (len ≠ 0 → c = step) := by
+  cases len with
+  | zero =>
+    refine ⟨1, by omega, by simp [ap, sliceFromList], ?_, by simp⟩
+    rw [rangeList_eq_ap]
+    have := rangeLen_ap a 1 0 (by omega)
+    simp only [Nat.zero_mul, Nat.add_zero] at this ⊢
+    rw [this]; simp [ap]
+  | succ m =>
+    refine ⟨step, hs, ?_, ?_, fun _ => rfl⟩
+    · have hlast := ap_getLast a step (m + 1)
+      have hlen : (ap a step (m + 1 + 1)).length = m + 2 := by simp [ap]
+      have hcons : ap a step (m + 1 + 1) = a :: ((List.range (m + 1)).map (fun i => a + (i + 1) * step)) := by
+        unfold ap; rw [List.range_succ_eq_map]; simp [Function.comp]
+      rw [hcons] at hlast hlen ⊢
+      cases hm : (List.range (m + 1)).map (fun i => a + (i + 1) * step) with
+      | nil => simp at hm
+      | cons y ys =>
+        rw [hm] at hlast hlen
+        simp only [sliceFromList, hlast, Option.getD_some, hlen]
+        have h1 : m + 2 - 1 = m + 1 := by omega
+        have h2 : a + (m + 1) * step + 1 - 1 - a = (m + 1) * step := by omega
+        have h3 : (m + 1) * step / (m + 1) = step := by rw [Nat.mul_comm]; exact Nat.mul_div_cancel _ (by omega)
+        have h4 : (m + 1) * step % step = 0 := Nat.mul_mod_left _ _
+        simp [h1, h2, h3, h4]; omega
+    · rw [rangeList_eq_ap, rangeLen_ap a step (m + 1) hs]
+
+theorem sortDedup_of_sorted (l : List Nat) (h : l.Pairwise (· < ·)) : sortDedup l = l := by
+  induction l with
+  | nil => rfl
+  | cons a as ih =>
+    have hp := List.pairwise_cons.1 h
+    have : sortDedup (a :: as) = insertSorted a (sortDedup as) := rfl
+    rw [this, ih hp.2]
+    cases as with
+    | nil => rfl
+    | cons b bs => simp [insertSorted, hp.1 b (List.mem_cons_self ..)]
+
+
+theorem merged_none_none (p : Plan) (c : Nat) :
+    mergedPostFramePre p none none c
+      = if (c - 1) * p.frameSize > 0 then some ⟨.skip, (c - 1) * p.frameSize, none, none, none⟩ else none := by
+  unfold mergedPostFramePre
+  by_cases h : c > 1
+  · simp [h]
+  · have : c - 1 = 0 := by omega
+    simp [h, this]
+
+/-- `genEvents` for all channels of a direct-X plan -/
+theorem genEvents_all (p : Plan) (k a b c : Nat) (hpi : p.indr = 0) (hnc : p.numChannels = k + 1) (hab : a < b) (hc : 0 < c) :
+    genEvents p a b c (List.range (k + 1))
+      = .ok ((if a > 0 then [(⟨.skip, a * p.frameSize, some a, none, some 0⟩ : Ev)] else [])
+          ++ frameLoop p [⟨.read, p.frameSize, none, some 0, some k⟩] none
+              (if (c - 1) * p.frameSize > 0 then some ⟨.skip, (c - 1) * p.frameSize, none, none, none⟩ else none)
+              b c (b - a) a none) := by
+  have hsorted : (List.range (k + 1)).Pairwise (· < ·) := List.pairwise_lt_range
+  have hchk : checkChIdx p (List.range (k + 1)) = .ok (List.range (k + 1)) := by
+    unfold checkChIdx
+    rw [sortDedup_of_sorted _ hsorted]
+    simp only [List.getLast?_range]
+    simp [hnc]
+  have hc0 : ¬ c = 0 := by omega
+  unfold genEvents
+  simp only [hchk, hc0, if_false, List.length_range, gt_iff_lt, Nat.zero_lt_succ, hab, and_self, if_true,
+    retFrameEvents_all p k hnc, merged_none_none, hpi, Nat.lt_irrefl, List.nil_append]
+  by_cases ha : 0 < a
+  · simp [ha]
+  · simp [ha]
+
+
+theorem exec_seek (d : Dfsr) (st : Store) (r : Run) (t : Nat) (bs : List Nat) (fr cf ct : Option Nat)
+    (hfind : Store.find st t = some bs) (hhead : bs.head? = some d.dataType) (hlen : 2 ≤ bs.length) :
+    ∃ ops, execEv d st r ⟨.seekLr, t, fr, cf, ct⟩ = .ok ⟨some (t, bs), 2, r.fs, ops⟩ := by
+  unfold execEv Run.read
+  simp only [hfind]
+  have h1 : ¬ (0 + 2 > bs.length) := by omega
+  simp only [h1, if_false, List.drop_zero]
+  have hh : (bs.take 2).head? = some d.dataType := by
+    cases bs with
+    | nil => simp at hlen
+    | cons x xs => simpa using hhead
+  simp only [hh, ne_eq, not_true_eq_false, if_false]
+  exact ⟨_, rfl⟩
+
+theorem ap_getElem (a step len i : Nat) : (ap a step len)[i]? = if i < len then some (a + i * step) else none := by
+  unfold ap
+  by_cases h : i < len
+  · simp [h]
+  · simp [h]
+
+theorem ap_inc (a step len : Nat) (hs : 0 < step) (i j x y : Nat) (hij : i < j)
+    (hx : (ap a step len)[i]? = some x) (hy : (ap a step len)[j]? = some y) : x < y := by
+  rw [ap_getElem] at hx hy
+  split at hx <;> split at hy <;> simp at hx hy
+  subst hx hy
+  have : i * step < j * step := Nat.mul_lt_mul_of_pos_right hij hs
+  omega
+
+/-- **One record, all channels, direct X**: seeking to the record and executing the renumbered events generated for
+the offsets `a, a+step, …` (an arithmetic progression inside the record) fills the rows `frInt, frInt+1, …` with the
+rows of those frames and leaves the rest of the frame set alone. -/
+theorem block_exec_all (d : Dfsr) (st : Store) (t : Nat) (bs : List Nat) (k n a step len frInt : Nat) (p : Plan)
+    (hp : p = ⟨0, d.chans.map Chan.size⟩) (hk : d.chans.length = k + 1) (hok : d.sizesOk) (hstep : 0 < step)
+    (hfind : Store.find st t = some bs) (hhead : bs.head? = some d.dataType)
+    (hbs : bs.length = 2 + n * sumN (d.chans.map Chan.size)) (hlast : a + len * step < n)
+    (r : Run) (hch : r.fs.chIdx = List.range d.chans.length)
+    (hrows : ∀ row ∈ r.fs.frames, row.length = sumN (d.chans.map Chan.numValues))
+    (hN : frInt + (len + 1) ≤ r.fs.frames.length) :
+    ∃ a' b' c' evs r', sliceFromList (ap a step (len + 1)) = .ok (a', b', c') ∧
+      genEvents p a' b' c' (List.range (k + 1)) = .ok evs ∧
+      execEvs d st (⟨.seekLr, t, none, none, none⟩ :: renumber (ap a step (len + 1)) frInt evs 0) r = .ok r' ∧
+      r'.fs = { r.fs with frames := setRows r.fs.frames frInt ((ap a step (len + 1)).map (rowOf d bs)) } := by
+  obtain ⟨c, hc, hsl, hrl, _⟩ := sliceFromList_ap a step len hstep
+  have hpi : p.indr = 0 := by rw [hp]
+  have hnc : p.numChannels = k + 1 := by rw [hp]; simp [Plan.numChannels, hk]
+  have hfs : p.frameSize = sumN (d.chans.map Chan.size) := by rw [hp]; rfl
+  have hab : a < a + len * step + 1 := by omega
+  have hgen := genEvents_all p k a (a + len * step + 1) c hpi hnc hab hc
+  rw [hfs] at hgen
+  obtain ⟨ops0, hseek⟩ := exec_seek d st r t bs none none none hfind hhead (by omega)
+  have hb : ∀ i, (ap a step (len + 1))[0 + i]? = (rangeList a (a + len * step + 1) c)[i]? := by
+    intro i; rw [hrl, Nat.zero_add]
+  have hinc := ap_inc a step (len + 1) hstep
+  have hlenR : rangeLen a (a + len * step + 1) c = len + 1 := by
+    have : (rangeList a (a + len * step + 1) c).length = (ap a step (len + 1)).length := by rw [hrl]
+    simpa [rangeList, ap] using this
+  have han : a * sumN (d.chans.map Chan.size) ≤ n * sumN (d.chans.map Chan.size) :=
+    Nat.mul_le_mul_right _ (by omega)
+  by_cases ha : 0 < a
+  · obtain ⟨ops1, hsk⟩ := exec_skip d st ⟨some (t, bs), 2, r.fs, ops0⟩ t bs (a * sumN (d.chans.map Chan.size))
+      (some (frInt + 0)) none (some 0) rfl (by simp only; omega)
+    have hst0 : renumStep (ap a step (len + 1)) 0 ⟨.skip, a * sumN (d.chans.map Chan.size), some a, none, some 0⟩ = 0 := by
+      unfold renumStep
+      have : ¬ (0 + 1 < (ap a step (len + 1)).length ∧ ((ap a step (len + 1))[0 + 1]? = some a ∧ (some a).isSome)) := by
+        intro ⟨_, he, _⟩
+        have h0 : (ap a step (len + 1))[0]? = some a := by rw [ap_getElem]; simp
+        have := hinc 0 (0 + 1) a a (by omega) h0 he
+        omega
+      rw [if_neg this]
+    obtain ⟨r', hex, hfs', _⟩ := frameLoop_exec_all d st t bs k n (a + len * step + 1) c (ap a step (len + 1)) frInt p _ rfl
+      hpi hk hok hc hbs (by omega) _ rfl hinc (a + len * step + 1 - a) a 0 0
+      ⟨some (t, bs), 2 + a * sumN (d.chans.map Chan.size), r.fs, ops1⟩ hab (Nat.le_refl _) hb (Or.inl rfl) rfl rfl hch hrows
+      (by rw [hlenR]; simpa using hN)
+    refine ⟨a, a + len * step + 1, c, _, r', hsl, hgen, ?_, ?_⟩
+    · simp only [ha, if_true, List.cons_append, List.nil_append, renumber_cons, hst0, execEvs, hseek, hsk]
+      exact hex
+    · rw [hfs', hrl]; simp
+  · have ha0 : a = 0 := by omega
+    subst ha0
+    obtain ⟨r', hex, hfs', _⟩ := frameLoop_exec_all d st t bs k n (0 + len * step + 1) c (ap 0 step (len + 1)) frInt p _ rfl
+      hpi hk hok hc hbs (by omega) _ rfl hinc (0 + len * step + 1 - 0) 0 0 0
+      ⟨some (t, bs), 2, r.fs, ops0⟩ hab (Nat.le_refl _) hb (Or.inl rfl) rfl (by simp) hch hrows
+      (by rw [hlenR]; simpa using hN)
+    refine ⟨0, 0 + len * step + 1, c, _, r', hsl, hgen, ?_, ?_⟩
+    · simp only [Nat.lt_irrefl, if_false, List.nil_append, execEvs, hseek]
+      exact hex
+    · rw [hfs', hrl]; simp
+
 end TD.C06
